@@ -194,6 +194,9 @@ fn gen_fields(rg: &mut Rg, kind: Kind, n: usize, pool: &[FieldTy], e: &EnumSpec)
             if e.type_param && rg.chance(1, 3) {
                 ty = FieldTy::Gen;
             }
+            if e.type_param2 && rg.chance(1, 4) {
+                ty = FieldTy::Gen2;
+            }
             if e.lifetime && rg.chance(1, 3) {
                 ty = FieldTy::RefStr;
             }
@@ -247,6 +250,37 @@ pub fn irrelevant_attrs(rg: &mut Rg, tag: usize) -> Vec<VAttr> {
     out
 }
 
+/// enum-level strum attributes that the derives of a family do not consume (`names` = the family prints
+/// or parses names, so serialize_all / prefix are relevant there and left alone), plus a visibility
+pub fn irrelevant_enum_attrs(rg: &mut Rg, e: &mut EnumSpec, names: bool, vary_vis: bool) {
+    let mut attrs = Vec::new();
+    if !names {
+        if rg.chance(1, 5) {
+            attrs.push(EAttr::SerializeAll(rg.pick(&model::STYLES).to_string()));
+        }
+        if rg.chance(1, 6) {
+            attrs.push(EAttr::Prefix("pfx_".to_string()));
+        }
+        if rg.chance(1, 6) {
+            attrs.push(EAttr::Ci);
+        }
+    }
+    // the default path written out explicitly must be neutral
+    if rg.chance(1, 8) && e.crate_path().is_none() {
+        attrs.push(EAttr::Crate("::strum".to_string()));
+    }
+    if !attrs.is_empty() {
+        let g = layout(rg, attrs, false);
+        for grp in g {
+            let at = rg.range(0, e.groups.len());
+            e.groups.insert(at, grp);
+        }
+    }
+    if vary_vis {
+        e.vis = rg.pick(&["pub", "pub", "pub(crate)", ""]).to_string();
+    }
+}
+
 /// attributes of a disabled variant: `disabled` alone, or sharing its list / its variant with
 /// harmless companions in any order
 pub fn disabled_attrs(rg: &mut Rg, tag: usize) -> Vec<Vec<VAttr>> {
@@ -267,6 +301,9 @@ fn use_generics(e: &mut EnumSpec) {
     let mut need = vec![];
     if e.type_param && !uses(e, FieldTy::Gen) {
         need.push(FieldTy::Gen);
+    }
+    if e.type_param2 && !uses(e, FieldTy::Gen2) {
+        need.push(FieldTy::Gen2);
     }
     if e.lifetime && !uses(e, FieldTy::RefStr) {
         need.push(FieldTy::RefStr);
@@ -416,6 +453,7 @@ pub fn gen_string(rg: &mut Rg, cfg: &GenCfg) -> EnumSpec {
         e.type_param = rg.chance(1, 5);
         e.lifetime = rg.chance(1, 6);
         e.const_param = rg.chance(1, 8);
+        e.type_param2 = e.type_param && rg.chance(1, 3);
         e.where_clause = e.type_param && rg.chance(1, 2);
         e.generic_defaults = (e.type_param || e.const_param) && rg.chance(1, 4);
     }
@@ -451,7 +489,7 @@ pub fn gen_string(rg: &mut Rg, cfg: &GenCfg) -> EnumSpec {
     }
     e.groups = layout(rg, eattrs, false);
 
-    let n = rg.weighted(&[(1, 0usize), (1, 1), (3, 2), (4, 3), (4, 4), (3, 5), (2, 6), (1, 7), (1, 8)]).min(cfg.max_variants).max(cfg.min_variants);
+    let n = if cfg.min_variants > 8 { rg.range(cfg.min_variants, cfg.max_variants) } else { rg.weighted(&[(1, 0usize), (1, 1), (3, 2), (4, 3), (4, 4), (3, 5), (2, 6), (1, 7), (1, 8)]).min(cfg.max_variants).max(cfg.min_variants) };
     let mut idents: Vec<&str> = IDENTS.to_vec();
     rg.shuffle(&mut idents);
     if !cfg.idents.is_empty() {
@@ -481,7 +519,10 @@ pub fn gen_string(rg: &mut Rg, cfg: &GenCfg) -> EnumSpec {
     let mut default_used = false;
     let mut empty_used = false;
     for vi in 0..n {
-        let mut v = VariantSpec::unit(idents[vi]);
+        let mut v = VariantSpec::unit(idents[vi % idents.len()]);
+        if vi >= idents.len() {
+            v.ident = format!("{}N{}", v.ident, vi);
+        }
         let kind = if cfg.allow_fields { rg.weighted(&[(5, Kind::Unit), (3, Kind::Tuple), (3, Kind::Named)]) } else { Kind::Unit };
         let mut attrs: Vec<VAttr> = Vec::new();
         let mut keep_order = false;
@@ -535,7 +576,7 @@ pub fn gen_string(rg: &mut Rg, cfg: &GenCfg) -> EnumSpec {
             && !want_default
             && !want_transparent
             && !v.fields.is_empty()
-            && v.fields.iter().all(|f| !matches!(f.ty, FieldTy::Gen | FieldTy::Phantom | FieldTy::RefStr))
+            && v.fields.iter().all(|f| !matches!(f.ty, FieldTy::Gen | FieldTy::Gen2 | FieldTy::Phantom | FieldTy::RefStr))
             // format! itself rejects raw identifiers inside placeholders
             && v.fields.iter().all(|f| !f.name.as_deref().unwrap_or("").starts_with("r#"))
             && rg.chance(1, 2);
@@ -614,6 +655,7 @@ pub fn gen_string(rg: &mut Rg, cfg: &GenCfg) -> EnumSpec {
     use_generics(&mut e);
     repair_spellings(&mut e);
     add_noise(rg, &mut e);
+    irrelevant_enum_attrs(rg, &mut e, true, false);
     let docs_ok = !e.derives("EnumMessage");
     variant_noise(rg, &mut e, docs_ok);
     e
@@ -652,6 +694,7 @@ pub fn gen_iter(rg: &mut Rg, cfg: &IterCfg) -> EnumSpec {
     e.derives = cfg.derives.clone();
     if !cfg.fieldless {
         e.type_param = rg.chance(1, 4);
+        e.type_param2 = e.type_param && rg.chance(1, 2);
         e.const_param = rg.chance(1, 6);
         e.where_clause = e.type_param && rg.chance(1, 2);
     }
@@ -771,12 +814,14 @@ pub fn gen_iter(rg: &mut Rg, cfg: &IterCfg) -> EnumSpec {
     }
     // `default` is an EnumString notion: a catch-all variant is an ordinary variant for every other derive
     if !cfg.fieldless && rg.chance(1, 5) {
-        if let Some(v) = e.variants.iter_mut().find(|v| v.kind == Kind::Tuple && v.fields.len() == 1 && !v.disabled() && !matches!(v.fields[0].ty, FieldTy::Gen | FieldTy::Phantom | FieldTy::RefStr)) {
+        if let Some(v) = e.variants.iter_mut().find(|v| v.kind == Kind::Tuple && v.fields.len() == 1 && !v.disabled() && !matches!(v.fields[0].ty, FieldTy::Gen | FieldTy::Gen2 | FieldTy::Phantom | FieldTy::RefStr)) {
             v.fields[0].ty = FieldTy::Str;
             v.groups.push(vec![VAttr::Default]);
         }
     }
     add_noise(rg, &mut e);
+    let names = cfg.naming;
+    irrelevant_enum_attrs(rg, &mut e, names, true);
     variant_noise(rg, &mut e, true);
     e
 }
@@ -870,6 +915,7 @@ pub fn gen_repr(rg: &mut Rg, repr: Option<&str>, derives: &[String]) -> EnumSpec
             use_generics(&mut e);
         }
         add_noise(rg, &mut e);
+        irrelevant_enum_attrs(rg, &mut e, false, true);
         variant_noise(rg, &mut e, true);
         // validity: unique, in range (rustc rejects duplicates / overflow)
         let ds = model::discs(&e);
@@ -900,6 +946,7 @@ pub fn gen_shape(rg: &mut Rg) -> EnumSpec {
     e.type_param = rg.chance(1, 4);
     e.lifetime = rg.chance(1, 5);
     e.where_clause = false;
+    e.type_param2 = e.type_param && rg.chance(1, 3);
     e.generic_defaults = e.type_param && rg.chance(1, 3);
     let n = rg.range(1, 8);
     let mut idents: Vec<&str> = IDENTS.iter().copied().filter(|i| method_safe(i)).collect();
@@ -947,12 +994,16 @@ pub fn gen_shape(rg: &mut Rg) -> EnumSpec {
         e.variants.push(v);
     }
     add_noise(rg, &mut e);
+    irrelevant_enum_attrs(rg, &mut e, false, true);
     variant_noise(rg, &mut e, true);
     // generic carriers (not disabled)
     let uses = |e: &EnumSpec, t: FieldTy| e.variants.iter().any(|v| v.fields.iter().any(|f| f.ty == t));
     let mut need = vec![];
     if e.type_param && !uses(&e, FieldTy::Gen) {
         need.push(FieldTy::Gen);
+    }
+    if e.type_param2 && !uses(&e, FieldTy::Gen2) {
+        need.push(FieldTy::Gen2);
     }
     if e.lifetime && !uses(&e, FieldTy::RefStr) {
         need.push(FieldTy::RefStr);
@@ -1099,6 +1150,7 @@ pub fn gen_table(rg: &mut Rg, n_enabled: usize) -> EnumSpec {
         }
     }
     add_noise(rg, &mut e);
+    irrelevant_enum_attrs(rg, &mut e, false, true);
     variant_noise(rg, &mut e, true);
     e
 }
@@ -1228,6 +1280,7 @@ pub fn gen_disc(rg: &mut Rg) -> EnumSpec {
         e.disc_opts = Some(opts);
         // the source enum's own visibility varies as well (the glue sits in the parent module)
         e.vis = rg.pick(&["pub", "pub", "pub(crate)", "pub(super)"]).to_string();
+        irrelevant_enum_attrs(rg, &mut e, false, false);
         add_noise(rg, &mut e);
         variant_noise(rg, &mut e, true);
         let ds = model::discs(&e);
